@@ -17,6 +17,7 @@ import (
 	"github.com/ipld/go-ipld-prime/codec/dagjson"
 	"github.com/ipld/go-ipld-prime/datamodel"
 	"github.com/libp2p/go-libp2p/core/crypto"
+	"github.com/ucan-wg/go-ucan/pkg/args"
 	"github.com/ucan-wg/go-ucan/pkg/command"
 	"github.com/ucan-wg/go-ucan/pkg/policy"
 	"github.com/ucan-wg/go-ucan/token"
@@ -27,7 +28,7 @@ import (
 func init() {
 	register(stream{
 		name: "token",
-		rule: "envelopes built by the harness itself (go-ipld-prime + libp2p, not go-ucan's envelope code) and offered to token.FromSealed / delegation.FromSealed / invocation.FromSealed and the DAG-JSON equivalents: (fields) every payload field of a valid delegation and invocation × {dropped, null, retyped to each IPLD kind, out-of-range, empty, malformed DID/command/policy/selector/pattern, short nonce} and an added unknown key, each CORRECTLY RE-SIGNED; (envelope) wrong, foreign or missing varsig header, extra SigPayload entry, extra outer element, swapped and unknown tags, signature by another key, truncated/empty/non-bytes signature, every payload field and the varsig header rewritten while KEEPING THE OLD SIGNATURE (after the genuine token was decoded), header variants with foreign hash/encoding/segments, a genuine and a forged token decoded from 8 goroutines at once; (bits) every single-bit flip of a sealed Ed25519 delegation and invocation; (values) every Go integer type at its boundary values through literal.Any (directly and nested), args.Add and meta.Add — stored exactly or rejected; (roundtrip) tokens from the constructors under every option combination × Ed25519/secp256k1/P-256/P-384/P-521 (RSA thorough) × {DAG-CBOR, DAG-JSON} × {generic, typed}. Compared: accept/reject and every decoded field. Added later: signatures of 257…65537 bytes (junk, padded, doubled); int64 extremes and pre-1970 instants in policy, arguments, metadata and time fields; round-trip option bits for instants at year 1/1000/1969, audience = subject and floats without fraction (the last is the open finding F-C07-dagjson-integral-float, in a class of its own); stream reads right after failed stream reads; a token naming issuer A but signed by B decoded while A's and B's keys are extracted concurrently (rounds bounded by time); ready-made IPLD nodes with out-of-range integers alone, in IPLD containers and in Go containers through Args.Add / literal.Any / WithArgument / WithMeta (kept ⇒ in range; seals ⇒ unseals); constructor well-formedness under unusual nonce options; command text assembled by New/Join stays refused, valid commands with empty segments are kept byte for byte. For EVERY key algorithm (RSA included) at every tier: signature of another key, empty, truncated, one-byte, junk and all-zero signatures, the genuine signature over a changed field, an empty varsig header, and a signature made over a non-canonical serialization that is shipped as such; the FromDagCbor / FromDagCborReader entry points (no canonical-form check of their own) on the same bytes; instants exactly at the Unix epoch in round trips. Non-trivial = all but the unmodified fixtures. Distinct = distinct protocol lines.",
+		rule: "envelopes built by the harness itself (go-ipld-prime + libp2p, not go-ucan's envelope code) and offered to token.FromSealed / delegation.FromSealed / invocation.FromSealed and the DAG-JSON equivalents: (fields) every payload field of a valid delegation and invocation × {dropped, null, retyped to each IPLD kind, out-of-range, empty, malformed DID/command/policy/selector/pattern, short nonce} and an added unknown key, each CORRECTLY RE-SIGNED; (envelope) wrong, foreign or missing varsig header, extra SigPayload entry, extra outer element, swapped and unknown tags, signature by another key, truncated/empty/non-bytes signature, every payload field and the varsig header rewritten while KEEPING THE OLD SIGNATURE (after the genuine token was decoded), header variants with foreign hash/encoding/segments, a genuine and a forged token decoded from 8 goroutines at once; (bits) every single-bit flip of a sealed Ed25519 delegation and invocation; (values) every Go integer type at its boundary values through literal.Any (directly and nested), args.Add and meta.Add — stored exactly or rejected; (roundtrip) tokens from the constructors under every option combination × Ed25519/secp256k1/P-256/P-384/P-521 (RSA thorough) × {DAG-CBOR, DAG-JSON} × {generic, typed}. Compared: accept/reject and every decoded field. Added later: signatures of 257…65537 bytes (junk, padded, doubled); int64 extremes and pre-1970 instants in policy, arguments, metadata and time fields; round-trip option bits for instants at year 1/1000/1969, audience = subject and floats without fraction (the last is the open finding F-C07-dagjson-integral-float, in a class of its own); stream reads right after failed stream reads; a token naming issuer A but signed by B decoded while A's and B's keys are extracted concurrently (rounds bounded by time); ready-made IPLD nodes with out-of-range integers alone, in IPLD containers and in Go containers through Args.Add / literal.Any / WithArgument / WithMeta (kept ⇒ in range; seals ⇒ unseals); constructor well-formedness under unusual nonce options; command text assembled by New/Join stays refused, valid commands with empty segments are kept byte for byte. For EVERY key algorithm (RSA included) at every tier: signature of another key, empty, truncated, one-byte, junk and all-zero signatures, the genuine signature over a changed field, an empty varsig header, and a signature made over a non-canonical serialization that is shipped as such; the FromDagCbor / FromDagCborReader entry points (no canonical-form check of their own) on the same bytes; instants exactly at the Unix epoch in round trips. Round trips of an expiration in the last half second of the representable range and of argument sets merged twice over an earlier key. Non-trivial = all but the unmodified fixtures. Distinct = distinct protocol lines.",
 		run:  runTokenStream,
 		eval: evalToken,
 		cmp: func(line, g, m string) string {
@@ -617,7 +618,7 @@ func runTokenStream(c *ctx) error {
 	for _, alg := range rtAlgs {
 		for _, kind := range []string{"dlg", "inv"} {
 			// bits 7–9 (early instants, audience = subject, integral floats): a few masks per algorithm
-			for _, m := range []int{128, 129, 256, 257, 384, 128 + 16, 256 + 8, 512, 513, 512 + 2 + 4, 1024, 1025, 1026, 1024 + 3} {
+			for _, m := range []int{128, 129, 256, 257, 384, 128 + 16, 256 + 8, 512, 513, 512 + 2 + 4, 1024, 1025, 1026, 1024 + 3, 2048, 2049, 4096, 4097, 4096 + 2} {
 				if !c.thoro && alg != "ed25519" && alg != "p256" {
 					continue
 				}
@@ -1034,6 +1035,18 @@ func tokRoundTrip(kind, alg, ms string) string {
 				opts = append(opts, invocation.WithInvokedAt(time.Unix(0, 0)), invocation.WithExpiration(time.Unix(0, 0)))
 			}
 		}
+		if opt(11) {
+			// an expiration in the last half second of the representable range: what is stored is what was checked
+			opts = append(opts, invocation.WithExpiration(time.Unix(9007199254740991, 600000000)))
+		}
+		if opt(12) {
+			// arguments given one by one and then merged with a set that overlaps them on an EARLIER key, twice
+			more := args.New()
+			_ = more.Add("k1", int64(5))
+			_ = more.Add("zz", "new")
+			opts = append(opts, invocation.WithArgument("k1", int64(1)), invocation.WithArgument("m", "mid"), invocation.WithArgument("z9", true),
+				invocation.WithArguments(more), invocation.WithArguments(more))
+		}
 		if opt(8) {
 			// an audience naming the subject itself (after any other audience option, so that it is the one that counts)
 			opts = append(opts, invocation.WithAudience(aud.did))
@@ -1044,7 +1057,7 @@ func tokRoundTrip(kind, alg, ms string) string {
 		}
 		t, err := invocation.New(k.did, aud.did, icmd, prf, opts...)
 		if err != nil {
-			if opt(6) {
+			if opt(6) || opt(11) {
 				return "ok" // refused by the constructor: nothing to round-trip
 			}
 			return "constructor: " + err.Error()
